@@ -28,3 +28,66 @@ package common
 //@   loop 1: invariant len(points) >= 2 && len(points) % 2 == 0 ==> 0 <= trunc(points[0]) && trunc(points[0]) < width && 0 <= trunc(points[1]) && trunc(points[1]) < height
 //@   loop 1: invariant offset <= len(points) - 4 && len(points) % 2 == 0 ==> 0 <= trunc(points[len(points)-2]) && trunc(points[len(points)-2]) < width && 0 <= trunc(points[len(points)-1]) && trunc(points[len(points)-1]) < height
 //@   loop 1: decreases offset + 2
+
+// ---------------------------------------------------------------- perspective transform (homogeneous form, reals)
+//@ spec func numX(p *PerspectiveTransform, x real, y real) real = p.a11*x + p.a21*y + p.a31
+//@ spec func numY(p *PerspectiveTransform, x real, y real) real = p.a12*x + p.a22*y + p.a32
+//@ spec func den(p *PerspectiveTransform, x real, y real) real = p.a13*x + p.a23*y + p.a33
+// maps(p, u, v, X, Y): p sends (u,v) to (X,Y)  (stated without division)
+//@ pred maps(p *PerspectiveTransform, u real, v real, X real, Y real) = numX(p, u, v) == X * den(p, u, v) && numY(p, u, v) == Y * den(p, u, v)
+
+//@ func PerspectiveTransform_SquareToQuadrilateral(x0 float64, y0 float64, x1 float64, y1 float64, x2 float64, y2 float64, x3 float64, y3 float64) (r *PerspectiveTransform)
+//@   property C19
+//@   requires (x0 - x1 + x2 - x3 == 0.0 && y0 - y1 + y2 - y3 == 0.0) || (x1 - x2)*(y3 - y2) - (x3 - x2)*(y1 - y2) != 0.0
+//@   ensures r != nil && fresh(r)
+//@   ensures maps(r, 0.0, 0.0, x0, y0)
+//@   ensures maps(r, 1.0, 0.0, x1, y1)
+//@   ensures maps(r, 0.0, 1.0, x3, y3)
+//@   // third corner: the two perspective coefficients solve the 2x2 system; the mapping of (1,1) follows by lemma corner11
+//@   let D = (x1 - x2)*(y3 - y2) - (x3 - x2)*(y1 - y2)
+//@   let affine = x0 - x1 + x2 - x3 == 0.0 && y0 - y1 + y2 - y3 == 0.0
+//@   ensures affine ==> r.a13 == 0.0 && r.a23 == 0.0 && maps(r, 1.0, 1.0, x2, y2)
+//@   ensures !affine ==> r.a13 * D == (x0 - x1 + x2 - x3)*(y3 - y2) - (x3 - x2)*(y0 - y1 + y2 - y3) && r.a23 * D == (x1 - x2)*(y0 - y1 + y2 - y3) - (x0 - x1 + x2 - x3)*(y1 - y2)
+//@   ensures r.a11 == x1 - x0 + r.a13*x1 && r.a21 == x3 - x0 + r.a23*x3 && r.a31 == x0 && r.a12 == y1 - y0 + r.a13*y1 && r.a22 == y3 - y0 + r.a23*y3 && r.a32 == y0
+//@   ensures r.a33 == 1.0 && den(r, 0.0, 0.0) == 1.0
+//@   modifies nothing
+
+// with A = a13*D and B = a23*D solving the 2x2 system (see the contract above), D*(image of (1,1) - (x2,y2)*denominator) vanishes
+// identically; since D != 0 the transform sends (1,1) to (x2,y2).  (polynomial identity, no division)
+//@ lemma corner11(x0 real, y0 real, x1 real, y1 real, x2 real, y2 real, x3 real, y3 real)
+//@   property C19
+//@   let D = (x1 - x2)*(y3 - y2) - (x3 - x2)*(y1 - y2)
+//@   let A = (x0 - x1 + x2 - x3)*(y3 - y2) - (x3 - x2)*(y0 - y1 + y2 - y3)
+//@   let B = (x1 - x2)*(y0 - y1 + y2 - y3) - (x0 - x1 + x2 - x3)*(y1 - y2)
+//@   ensures D*(x1 + x3 - x0 - x2) + A*(x1 - x2) + B*(x3 - x2) == 0.0
+//@   ensures D*(y1 + y3 - y0 - y2) + A*(y1 - y2) + B*(y3 - y2) == 0.0
+
+// adj(M) . M == det(M) . I  (so the adjoint serves as the inverse up to the common scale factor)
+//@ spec func det3(p *PerspectiveTransform) real = p.a11*(p.a22*p.a33 - p.a23*p.a32) - p.a21*(p.a12*p.a33 - p.a13*p.a32) + p.a31*(p.a12*p.a23 - p.a13*p.a22)
+//@ func (p *PerspectiveTransform) buildAdjoint() (r *PerspectiveTransform)
+//@   property C19
+//@   ensures r != nil && fresh(r)
+//@   ensures r.a11*p.a11 + r.a21*p.a12 + r.a31*p.a13 == det3(p) && r.a11*p.a21 + r.a21*p.a22 + r.a31*p.a23 == 0.0 && r.a11*p.a31 + r.a21*p.a32 + r.a31*p.a33 == 0.0
+//@   ensures r.a12*p.a11 + r.a22*p.a12 + r.a32*p.a13 == 0.0 && r.a12*p.a21 + r.a22*p.a22 + r.a32*p.a23 == det3(p) && r.a12*p.a31 + r.a22*p.a32 + r.a32*p.a33 == 0.0
+//@   ensures r.a13*p.a11 + r.a23*p.a12 + r.a33*p.a13 == 0.0 && r.a13*p.a21 + r.a23*p.a22 + r.a33*p.a23 == 0.0 && r.a13*p.a31 + r.a23*p.a32 + r.a33*p.a33 == det3(p)
+//@   modifies nothing
+
+// composition: (p.times(o)) applied to a point is p applied to (o applied to the point), in homogeneous coordinates
+//@ func (p *PerspectiveTransform) times(other *PerspectiveTransform) (r *PerspectiveTransform)
+//@   property C19
+//@   requires other != nil
+//@   ensures r != nil && fresh(r)
+//@   ensures forall x real, y real :: numX(r, x, y) == p.a11*numX(other, x, y) + p.a21*numY(other, x, y) + p.a31*den(other, x, y)
+//@   ensures forall x real, y real :: numY(r, x, y) == p.a12*numX(other, x, y) + p.a22*numY(other, x, y) + p.a32*den(other, x, y)
+//@   ensures forall x real, y real :: den(r, x, y) == p.a13*numX(other, x, y) + p.a23*numY(other, x, y) + p.a33*den(other, x, y)
+//@   modifies nothing
+
+//@ func (p *PerspectiveTransform) TransformPoints(points []float64)
+//@   property C19
+//@   requires len(points) % 2 == 0
+//@   ensures forall k int :: 0 <= k && 2*k + 1 < len(points) ==> points[2*k] == numX(p, old(points[2*k]), old(points[2*k+1])) / den(p, old(points[2*k]), old(points[2*k+1])) && points[2*k+1] == numY(p, old(points[2*k]), old(points[2*k+1])) / den(p, old(points[2*k]), old(points[2*k+1]))
+//@   modifies points[*]
+//@   loop 0: invariant maxI == len(points) - 1 && 0 <= i && i % 2 == 0 && i <= len(points)
+//@   loop 0: invariant forall k int :: 0 <= k && 2*k + 1 < len(points) && 2*k < i ==> points[2*k] == numX(p, old(points[2*k]), old(points[2*k+1])) / den(p, old(points[2*k]), old(points[2*k+1])) && points[2*k+1] == numY(p, old(points[2*k]), old(points[2*k+1])) / den(p, old(points[2*k]), old(points[2*k+1]))
+//@   loop 0: invariant forall j int :: i <= j && j < len(points) ==> points[j] == old(points[j])
+//@   loop 0: decreases len(points) - i
